@@ -13,6 +13,7 @@ HARNESS_DIR = os.path.join(C.VERIF, "engine_k", "harness")
 # harness file -> (host source file relative to crate/src, module name, module path prefixes)
 HOSTS = {
     "h_lib.rs": [("lib.rs", "vk_lib", "vk_lib")],
+    "h_more.rs": [("lib.rs", "vk_more", "vk_more")],
     "h_mem.rs": [("memory.rs", "vk_mem", "memory::vk_mem")],
     "h_bytes.rs": [("bytes.rs", "vk_bytes", "bytes::vk_bytes")],
     "h_unsync.rs": [("unsync.rs", "vk_unsync", "unsync::vk_unsync")],
@@ -36,11 +37,12 @@ class Harness:
         self.tier = attrs.get("tier", "quick")
         self.quick_for = set(attrs.get("quick", "").split(",")) if attrs.get("quick") else None
         self.timeout = int(attrs.get("timeout", "1500"))
+        self.mem_gb = int(attrs.get("mem", "12"))
         self.builtin = attrs.get("builtin", None)
         self.builtin = self.builtin.split(",") if self.builtin else list(self.props)
         self.flavors = attrs.get("flavors", None)
         self.bounds = attrs.get("bounds", "")
-        self.optional_covers = attrs.get("optcover", "").split("|") if attrs.get("optcover") else []
+        self.optional_covers = [o.replace("_", " ") for o in attrs.get("optcover", "").split("|")] if attrs.get("optcover") else []
         self.seedgrp = attrs.get("seedgrp", None)
         self.unwind = unwind
         self.role = attrs.get("role", name)
@@ -106,12 +108,18 @@ def overlay(repo_copy):
                 fh.write('\n#[cfg(kani)]\n#[path = "vk/%s"]\npub(crate) mod %s;\n' % (fname, modname))
 
 
-def build(repo_copy, logdir):
-    """Compile the crate + harnesses once. Returns (ok, log)."""
+def build(repo_copy, logdir, harnesses=None):
+    """Compile the crate + the selected harnesses once (Kani only generates code for the harnesses
+    named with --harness, which is what keeps this step short). Returns (ok, log, seconds)."""
     crate = os.path.join(repo_copy, C.CRATE)
     t0 = time.time()
+    sel = []
+    for h in harnesses or []:
+        sel += ["--harness", h.name]
+    if sel:
+        sel.append("--exact")
     p = subprocess.run(
-        ["cargo", "kani"] + FEATURES + ["--only-codegen"],
+        ["cargo", "kani"] + FEATURES + ["--only-codegen"] + sel,
         cwd=crate, env=C.base_env(), stdout=subprocess.PIPE, stderr=subprocess.STDOUT, text=True,
     )
     with open(os.path.join(logdir, "build.log"), "w") as f:
@@ -142,14 +150,23 @@ def parse(out):
     return res
 
 
-def run_one(h, repo_copy, logdir, extra_args=None, mem_gb=12):
+def run_one(h, repo_copy, logdir, extra_args=None, mem_gb=None):
+    mem_gb = mem_gb or h.mem_gb
     crate = os.path.join(repo_copy, C.CRATE)
-    cmd = ["cargo", "kani"] + FEATURES + ["--harness", h.name, "--exact"] + (extra_args or [])
+    # own target dir per harness (hard-linked copy of the shared build: dependencies are reused, the crate is
+    # re-generated for this harness only, ~2 s), so that harnesses can be decided in parallel
+    main_target = os.path.join(repo_copy, "target")
+    tdir = os.path.join(os.path.dirname(repo_copy), "t." + re.sub(r"[^A-Za-z0-9_]", "_", h.name))
+    shutil.rmtree(tdir, ignore_errors=True)
+    if os.path.isdir(main_target):
+        subprocess.run(["cp", "-al", main_target, tdir], check=False)
+    cmd = ["cargo", "kani"] + FEATURES + ["--harness", h.name, "--exact", "--target-dir", tdir] + (extra_args or [])
     shell = "ulimit -v %d; exec timeout -k 10 %d %s" % (mem_gb * 1024 * 1024, h.timeout, " ".join(cmd))
     t0 = time.time()
     p = subprocess.run(["bash", "-c", shell], cwd=crate, env=C.base_env(),
                        stdout=subprocess.PIPE, stderr=subprocess.STDOUT, text=True)
     wall = time.time() - t0
+    shutil.rmtree(tdir, ignore_errors=True)
     logf = os.path.join(logdir, h.name.replace("::", "__") + ".log")
     with open(logf, "w") as f:
         f.write(p.stdout)
